@@ -27,12 +27,13 @@ with open(os.path.join(BUILD, "native.lock"), "w") as lk:
 ANSI = re.compile(r"\x1b\[[0-9;?]*[ -/]*[@-~]")
 diff = ("commit 94907c0f136f46dc46ffae2dc92dca9af7eb7c2e\nAuthor: A U Thor <a@example.com>\nDate:   Thu Jan 1 00:00:00 1970 +0000\n\n    subject line\n\n"
         "diff --git a/src/f.rs b/src/f.rs\nindex 1111111..2222222 100644\n--- a/src/f.rs\n+++ b/src/f.rs\n@@ -40,3 +50,3 @@ fn ctx()\n ctx\n-old\n+new\n ctx2\n"
+        "diff --git a/run.sh b/run.sh\nold mode 100644\nnew mode 100755\n"
         "diff --git a/born.txt b/born.txt\nnew file mode 100644\nindex 0000000..1111111\n--- /dev/null\n+++ b/born.txt\n@@ -0,0 +1 @@\n+x\n"
         "diff --git a/dead.txt b/dead.txt\ndeleted file mode 100644\nindex 1111111..0000000\n--- a/dead.txt\n+++ /dev/null\n@@ -1 +0,0 @@\n-y\n"
         "diff --git a/o.txt b/n.txt\nsimilarity index 90%\nrename from o.txt\nrename to n.txt\nindex 1111111..2222222 100644\n--- a/o.txt\n+++ b/n.txt\n@@ -1 +1 @@\n-p\n+q\n")
 n_in = diff.count("\n")
 bad = 0
-opts = [[], ["--file-style", "red"], ["--file-style", "omit"], ["--hunk-header-style", "omit"], ["--file-style", "raw"], ["--hunk-header-style", "raw"],
+opts = [[], ["--file-style", "red"], ["--file-style", "blue bold", "--file-decoration-style", "none"], ["--file-style", "omit"], ["--hunk-header-style", "omit"], ["--file-style", "raw"], ["--hunk-header-style", "raw"],
         ["--file-decoration-style", "box"], ["--hunk-header-decoration-style", "box ul"], ["--line-numbers"], ["--side-by-side"],
         ["--file-style", "omit", "--hunk-header-style", "omit", "--line-numbers"], ["--hunk-header-style", "file line-number syntax"],
         ["--commit-style", "omit"], ["--commit-style", "raw"], ["--commit-decoration-style", "box"], ["--commit-style", "omit", "--commit-decoration-style", "ul"]]
